@@ -671,7 +671,7 @@ fn show_ev(log: &[Ev]) -> String {
         .join(" ")
 }
 
-fn main() {
+pub fn main() {
     let mut ck = Check::new("C29", "exploration");
     chain_panic_hook();
     ck.rule("Streams of 1..12 items: data/text/ERR/side-band lines (payload length classes 1..12, ..300, ..66000, max, max-1, max+1 and fixed boundary values; bytes over an alphabet with LF, CR, NUL, band ids, 'ERR ', digits), flush/delim/response-end, Writer writes (binary/text, up to 200000 bytes so they are split), optionally followed by a truncated line or a malformed prefix; written by gitoxide's encoders (both API variants), read back with decode::streaming and with StreamingPeekableIter over a reader delivering tape-chosen pieces (1 byte .. everything, Interrupted errors) under tape-chosen read/peek/reset/reset_with/fail_on_err_lines operations; side-band sections read through WithSidebands with tape-chosen buffer sizes. Non-trivial: a line of >= 60000 bytes, or a reader piece size < 4, or a malformed/oversized prefix. Distinct by decoded case.");
